@@ -514,6 +514,14 @@ func (c Case) Prepare() (*config.Config, error) {
 	if len(cfg.Interfaces) != len(c.LC) {
 		return nil, fmt.Errorf("document has %d interfaces, case %d", len(cfg.Interfaces), len(c.LC))
 	}
+	c.Advance(cfg)
+	return cfg, nil
+}
+
+// Advance brings every interface of an already parsed (never initialised) configuration to its
+// lifecycle point, in place — as the advertiser's Prepare calls do in the running daemon, while
+// the metrics collector and the debug handler keep referring to the same plugins.
+func (c Case) Advance(cfg *config.Config) {
 	for i, ifi := range cfg.Interfaces {
 		switch c.LC[i] {
 		case 'I':
@@ -526,7 +534,6 @@ func (c Case) Prepare() (*config.Config, error) {
 			c.Sys.Inject(ifi)
 		}
 	}
-	return cfg, nil
 }
 
 // Script sets the reads of scrape k.
